@@ -28,6 +28,7 @@ for d in sys.argv[1:]:
         if rc == 2:
             got[p] = ["DOES-NOT-BUILD"]
         elif rc != 0:
-            got[p] = [l.strip().split(" at ")[0].replace("violation ", "") for l in o.splitlines() if l.strip().startswith("violation")]
+            got[p] = [l.strip().split(" at ")[0].replace("violation ", "") for l in o.splitlines() if l.strip().startswith("violation")] \
+                or ["rc=%d: %s" % (rc, o.strip()[-300:])]
     print(d, "SILENT" if not got else "FALSE-ALARM " + json.dumps(got)[:1500], flush=True)
 sh("git checkout -- . && git clean -fdq crates", WT)
